@@ -419,15 +419,28 @@ func c11RunStress(r *rand.Rand, dir string) c11Stress {
 		}(g)
 	}
 	wg.Wait()
-	st.Calls, st.Mismatches, st.SearchesRec = calls.Load(), bad.Load(), monitored.Load()
-	if v := firstBad.Load(); v != nil {
-		st.FirstBad = v.(string)
-	}
+	st.SearchesRec = monitored.Load()
 	// first use: goroutines released together on a FRESH collector / monitored database, many rounds
 	// (registration of a metric identity races with its first increments)
+	// expected answers of NLP searches, for the rounds on freshly built databases below
+	type nreq struct {
+		q    string
+		o    database.SearchOptions
+		want []eRes
+	}
+	var nreqs []nreq
+	for _, rq := range reqs {
+		o := rq.o
+		o.UseNLP = true
+		nreqs = append(nreqs, nreq{rq.q, o, projectResults(db, db.SearchUniversal(rq.q, o))})
+	}
 	for round := 0; round < 300; round++ {
 		col := metrics.NewCollector()
 		fresh := database.NewMonitoredDatabase(db)
+		var newly *database.Database
+		if round%6 == 0 { // a database on which nothing has been searched yet: state built lazily by the first search is shared
+			newly = database.VerifFresh(db.Commands)
+		}
 		start := make(chan struct{})
 		var wg2 sync.WaitGroup
 		const k = 8
@@ -441,6 +454,16 @@ func c11RunStress(r *rand.Rand, dir string) c11Stress {
 				if round%4 == 0 {
 					rq := reqs[(round+g)%len(reqs)]
 					fresh.SearchWithOptionsAndMonitoring(rq.q, rq.o)
+				}
+				if newly != nil {
+					nq := nreqs[(round/6+g)%len(nreqs)]
+					p := projectResults(newly, newly.SearchUniversal(nq.q, nq.o))
+					calls.Add(1)
+					if fmt.Sprint(p) != fmt.Sprint(nq.want) {
+						if bad.Add(1) == 1 {
+							firstBad.Store(fmt.Sprintf("first search on a fresh database: q=%q got=%v want=%v", nq.q, p, nq.want))
+						}
+					}
 				}
 			}(g)
 		}
@@ -463,6 +486,10 @@ func c11RunStress(r *rand.Rand, dir string) c11Stress {
 				}
 			}
 		}
+	}
+	st.Calls, st.Mismatches = calls.Load(), bad.Load()
+	if v := firstBad.Load(); v != nil {
+		st.FirstBad = v.(string)
 	}
 	st.HitMissExpected += monitored.Load()
 	rep := mdb.GetPerformanceReport()
